@@ -670,69 +670,7 @@ fn cli(m: &Model, ctx: &mut Ctx) {
                 Err(e) => ctx.fail_closed("C20.cli", &e),
             }
         }
-        // the directory search: "directories searched recursively for .asn/.asn1" — the condition under which a file found by
-        // the walk is handed to the compiler is evaluated on file names (helpers of the binary followed): a module file the walk
-        // skips is a source the library would have compiled, so the CLI's bindings (or its exit status) differ from the library's
-        {
-            struct Ifs { out: Vec<syn::ExprIf> }
-            impl model::DeepCb for Ifs {
-                fn expr(&mut self, e: &syn::Expr) {
-                    if let syn::Expr::If(i) = e {
-                        let t = tok(&i.then_branch);
-                        if t.contains(".push(") && t.contains("into_path") {
-                            self.out.push(i.clone());
-                        }
-                    }
-                }
-            }
-            let mut ifs = Ifs { out: vec![] };
-            model::deep_walk_block(&f.block, &mut ifs);
-            struct Locals { out: Vec<String> }
-            impl model::DeepCb for Locals {
-                fn local(&mut self, l: &syn::Local) {
-                    if let Some(i) = &l.init {
-                        if tok(&i.expr).contains("file_name()") {
-                            self.out.push(tok(&l.pat).trim_start_matches("mut ").to_string());
-                        }
-                    }
-                }
-            }
-            let mut locals = Locals { out: vec![] };
-            model::deep_walk_block(&f.block, &mut locals);
-            ctx.oblige("C20.cli", "module-files", true);
-            // the innermost such `if` (the enclosing `if let Some(dir) = ..` contains it)
-            ifs.out.sort_by_key(|i| tok(i).len());
-            match (ifs.out.first(), locals.out.first()) {
-                (Some(cond_if), Some(var)) if !matches!(&*cond_if.cond, syn::Expr::Let(_)) => {
-                    let mut inl: BTreeMap<String, (Vec<String>, syn::Block)> = BTreeMap::new();
-                    for g in m.fns.iter().filter(|g| g.module == f.module && g.self_ty.is_none() && g.name != "main") {
-                        let ps: Vec<String> = g.sig.inputs.iter().filter_map(|a| match a { syn::FnArg::Typed(t) => Some(tok(&t.pat).replace("mut ", "")), _ => None }).collect();
-                        inl.insert(g.name.clone(), (ps, g.block.clone()));
-                    }
-                    let consts = const_resolver(m);
-                    let ev2 = Evaluator { consts: &consts, call_hook: &crate::eval::no_hook, inline: Some(&inl) };
-                    for (name, want) in [("a.asn", true), ("a.asn1", true), ("Common.v1.asn", true), ("X.680.asn1", true), ("itu-t_x_x501_2019_SelectedAttributeTypes.asn", true), ("UPPER.ASN", false), ("a.txt", false), ("asn", false), ("a.asn.bak", false), ("a.asn2", false), ("README", false)] {
-                        if name == "UPPER.ASN" {
-                            continue; // case is not documented either way
-                        }
-                        let mut env = Env::new();
-                        env.insert(var.clone(), Val::Str(name.into()));
-                        match ev2.eval(&cond_if.cond, &mut env) {
-                            Ok(Val::Bool(b)) => {
-                                if b != want {
-                                    ctx.violate("C20.cli", &format!("module-files:{}", if want { "module-skipped" } else { "other-file-taken" }), &f.file, span_line(cond_if),
-                                        &format!("the directory search of the CLI {} the file `{}`: documented is every file whose name ends in .asn or .asn1 — {}", if b { "takes" } else { "skips" }, name,
-                                            if want { "a module the library compiles when it is given the same paths is missing from the CLI's bindings (or the CLI fails with `No modules`)" } else { "a file that is no module is handed to the compiler" }));
-                                }
-                            }
-                            Ok(o) => ctx.fail_closed("C20.cli", &format!("[module-files {}]: condition evaluated to {}", name, o.show())),
-                            Err(e) => ctx.fail_closed("C20.cli", &format!("[module-files {}]: {}", name, e)),
-                        }
-                    }
-                }
-                _ => ctx.fail_closed("C20.cli", &format!("main: the condition under which a file of the directory walk becomes a source was not found ({} candidates)", ifs.out.len())),
-            }
-        }
+        cli_walk(m, ctx, f);
         // the scrutinee is the result of compile()
         let bm: Vec<_> = ms.iter().filter(|mt| tok(&mt.expr).contains("backend")).collect();
         ctx.oblige("C20.cli", "builder-chains-agree", true);
@@ -868,4 +806,136 @@ fn cli_stdout(ctx: &mut Ctx, facts: &Facts) {
     }
     ctx.oblige_n("C20.cli/calls-in-binary-crate", n);
     ctx.oblige("C20.cli", "no-stdout-in-cli", true);
+}
+
+
+/// C20.cli:walk — "(CLI) directories searched recursively for .asn/.asn1": the statements of `main` up to and including the
+/// directory walk are evaluated on a modelled walk (WalkDir yields, in order, directories, module files, other files, an entry
+/// it cannot inspect, a *directory* whose name ends in .asn with a module inside). The sources handed on must be exactly the
+/// regular files named *.asn / *.asn1, in walk order, whatever else the walk meets: a module missing from the list is missing
+/// from the CLI's bindings although the library compiles it; a directory in the list makes the CLI fail where the library,
+/// given the files, succeeds.
+fn cli_walk(m: &Model, ctx: &mut Ctx, f: &crate::model::FnInfo) {
+    ctx.oblige("C20.cli", "module-files", true);
+    // the statement that contains the walk
+    let pos = f.block.stmts.iter().position(|s| tok(s).contains("WalkDir"));
+    let Some(pos) = pos else {
+        ctx.fail_closed("C20.cli", "main: no statement walks a directory (WalkDir)");
+        return;
+    };
+    let prefix = syn::Block { brace_token: f.block.brace_token, stmts: f.block.stmts[..=pos].to_vec() };
+    let entry = |path: &str, kind: &str| -> Val {
+        let mut fm = BTreeMap::new();
+        fm.insert("path".to_string(), Val::Str(path.into()));
+        fm.insert("kind".to_string(), Val::Str(kind.into()));
+        Val::Ctor("Ok".into(), vec![Val::Ctor("DirEntry".into(), vec![], fm)], BTreeMap::new())
+    };
+    let walk = vec![
+        entry("d", "dir"),
+        entry("d/a", "dir"),
+        entry("d/a/A.asn", "file"),
+        Val::Ctor("Err".into(), vec![Val::Str("IO error for operation on d/a/stale: No such file or directory".into())], BTreeMap::new()),
+        entry("d/b", "dir"),
+        entry("d/b/B.asn1", "file"),
+        entry("d/b/notes.txt", "file"),
+        entry("d/b/asn", "file"),
+        entry("d/b/a.asn.bak", "file"),
+        entry("d/b/a.asn2", "file"),
+        entry("d/b/README", "file"),
+        entry("d/sub.asn", "dir"),
+        entry("d/sub.asn/C.asn", "file"),
+        entry("d/sub.asn/Common.v1.asn", "file"),
+        entry("d/sub.asn/X.680.asn1", "file"),
+        entry("d/sub.asn/itu-t_x_x501_2019_SelectedAttributeTypes.asn", "file"),
+    ];
+    let want = vec!["d/a/A.asn", "d/b/B.asn1", "d/sub.asn/C.asn", "d/sub.asn/Common.v1.asn", "d/sub.asn/X.680.asn1", "d/sub.asn/itu-t_x_x501_2019_SelectedAttributeTypes.asn"];
+    let kind_of = |v: &Val| -> Option<String> { match v { Val::Ctor(n, _, fm) if n == "DirEntry" || n == "$path" => match fm.get("kind") { Some(Val::Str(k)) => Some(k.clone()), _ => None }, _ => None } };
+    let path_of = |v: &Val| -> Option<String> { match v { Val::Ctor(n, _, fm) if n == "DirEntry" || n == "$path" => match fm.get("path") { Some(Val::Str(k)) => Some(k.clone()), _ => None }, _ => None } };
+    let walk2 = walk.clone();
+    let hook = move |_: &Evaluator, name: &str, a: &[Val]| -> Option<Result<Val, String>> {
+        let last = |p: &str| p.rsplit('/').next().unwrap_or(p).to_string();
+        match name {
+            "CompilerArgs::parse" | "parse" if a.is_empty() => {
+                let mut src = BTreeMap::new();
+                src.insert("module_files".to_string(), Val::List(vec![]));
+                src.insert("directory".to_string(), Val::some(Val::Str("d".into())));
+                let mut fm = BTreeMap::new();
+                fm.insert("source".to_string(), Val::Ctor("SourceArgs".into(), vec![], src));
+                fm.insert("output".to_string(), Val::Opaque("output flags".into()));
+                fm.insert("backend".to_string(), Val::ctor("Rasn"));
+                Some(Ok(Val::Ctor("CompilerArgs".into(), vec![], fm)))
+            }
+            "WalkDir::new" if a.len() == 1 => Some(Ok(Val::List(walk2.clone()))),
+            // the walk follows links and descends without a depth limit: builder calls that keep it so
+            ".follow_links" | ".same_file_system" | ".sort_by_file_name" | ".contents_first" if matches!(a.first(), Some(Val::List(_))) => Some(Ok(a[0].clone())),
+            ".max_depth" | ".min_depth" if matches!(a.first(), Some(Val::List(_))) => Some(Err("the walk is limited in depth: the search is documented as recursive".into())),
+            ".file_name" if a.len() == 1 => path_of(&a[0]).map(|p| Ok(Val::Str(last(&p)))),
+            ".path" | ".into_path" | ".to_path_buf" if a.len() == 1 && matches!(&a[0], Val::Ctor(n, ..) if n == "DirEntry" || n == "$path") => {
+                let Val::Ctor(_, _, fm) = &a[0] else { return None };
+                Some(Ok(Val::Ctor("$path".into(), vec![], fm.clone())))
+            }
+            ".file_type" | ".metadata" if a.len() == 1 => kind_of(&a[0]).map(|k| {
+                let mut fm = BTreeMap::new();
+                fm.insert("kind".to_string(), Val::Str(k));
+                Ok(Val::Ctor("FileType".into(), vec![], fm))
+            }),
+            ".is_file" | ".is_dir" | ".is_symlink" if a.len() == 1 => match &a[0] {
+                Val::Ctor(n, _, fm) if n == "FileType" || n == "DirEntry" || n == "$path" => match fm.get("kind") {
+                    Some(Val::Str(k)) => Some(Ok(Val::Bool(match name { ".is_file" => k == "file", ".is_dir" => k == "dir", _ => false }))),
+                    _ => None,
+                },
+                _ => None,
+            },
+            ".extension" if a.len() == 1 => path_of(&a[0]).map(|p| { let l = last(&p); Ok(match l.rsplit_once('.') { Some((stem, e)) if !stem.is_empty() => Val::some(Val::Str(e.to_string())), _ => Val::none() }) }),
+            ".to_string_lossy" | ".to_str" | ".to_os_string" | ".as_os_str" | ".display" | ".into_owned" | ".as_ref" | ".deref" | ".as_str" | ".as_path" if a.len() == 1 => {
+                let v = match &a[0] { Val::Ctor(n, ..) if n == "$path" => Val::Str(path_of(&a[0]).unwrap_or_default()), o => o.clone() };
+                Some(Ok(if name == ".to_str" { Val::some(v) } else { v }))
+            }
+            "eprintln!" | "println!" | "eprint!" | "print!" => Some(Ok(Val::Unit)),
+            ".yellow" | ".blue" | ".red" | ".green" | ".bold" if a.len() == 1 => Some(Ok(a[0].clone())),
+            _ => None,
+        }
+    };
+    let consts = const_resolver(m);
+    let mut inl: BTreeMap<String, (Vec<String>, syn::Block)> = BTreeMap::new();
+    for g in m.fns.iter().filter(|g| g.module == f.module && g.self_ty.is_none() && g.name != "main") {
+        let ps: Vec<String> = g.sig.inputs.iter().filter_map(|a| match a { syn::FnArg::Typed(t) => Some(tok(&t.pat).replace("mut ", "")), _ => None }).collect();
+        inl.insert(g.name.clone(), (ps, g.block.clone()));
+    }
+    let ev = Evaluator { consts: &consts, call_hook: &hook, inline: Some(&inl) };
+    let mut env = Env::new();
+    match ev.eval_block(&prefix, &mut env) {
+        Err(e) => ctx.fail_closed("C20.cli", &format!("[main, directory walk]: {}", e)),
+        Ok(r) => {
+            if matches!(&r, Val::Ctor(n, _, _) if n == "$return") {
+                ctx.violate("C20.cli", "walk:returns-early", &f.file, span_line(&f.block.stmts[pos]), "main returns while walking a directory that holds three modules");
+                return;
+            }
+            // the list of sources: the local that received the module files of the command line
+            let lists: Vec<(String, Vec<String>)> = env.iter().filter_map(|(k, v)| match v {
+                Val::List(items) if !k.starts_with('$') => Some((k.clone(), items.iter().map(|i| path_of(i).unwrap_or_else(|| i.show())).collect())),
+                _ => None,
+            }).collect();
+            if lists.len() != 1 {
+                ctx.fail_closed("C20.cli", &format!("[main, directory walk]: {} list-valued locals after the walk ({:?}); expected the one list of sources", lists.len(), lists.iter().map(|l| &l.0).collect::<Vec<_>>()));
+                return;
+            }
+            let got = &lists[0].1;
+            let line = span_line(&f.block.stmts[pos]);
+            for w in &want {
+                if !got.iter().any(|g| g == w) {
+                    ctx.violate("C20.cli", "module-files:module-skipped", &f.file, line, &format!("the directory search of the CLI hands on {:?} for a directory holding the modules {:?} (and an entry it cannot inspect, other files, a directory named sub.asn): `{}` is missing from the CLI's bindings although the library compiles it when given the same paths", got, want, w));
+                }
+            }
+            for g in got {
+                if !want.contains(&g.as_str()) {
+                    ctx.violate("C20.cli", "module-files:other-file-taken", &f.file, line, &format!("the directory search of the CLI hands `{}` to the compiler as a source: it is no regular file named *.asn / *.asn1 — reading it fails (Is a directory) and the CLI exits with an error where the library, given the module files {:?}, succeeds", g, want));
+                }
+            }
+            let order: Vec<&String> = got.iter().filter(|g| want.contains(&g.as_str())).collect();
+            if order.len() == want.len() && order.iter().zip(want.iter()).any(|(a, b)| a.as_str() != *b) {
+                ctx.violate("C20.cli", "walk:order", &f.file, line, &format!("the sources are handed on as {:?}, not in walk order {:?}", got, want));
+            }
+        }
+    }
 }
